@@ -15,21 +15,46 @@ enum Tree {
     Player(bool, u64, Vec<(u64, Tree)>),
 }
 
+/// How the children of a node are handed to `Game::from_root`: always the same items in the same order, but through an
+/// iterator whose `size_hint` is, per case, exact (0), uninformative `(0, None)` (1), a bare lower bound of one
+/// `(min(1, n), None)` (2) or a loose upper bound `(0, Some(n + 5))` (3) -- all legal for an `Iterator`.
+static ITER_STYLE: std::sync::atomic::AtomicUsize = std::sync::atomic::AtomicUsize::new(0);
+
+struct Lazy<T> {
+    inner: std::vec::IntoIter<T>,
+}
+
+impl<T> Iterator for Lazy<T> {
+    type Item = T;
+    fn next(&mut self) -> Option<T> {
+        self.inner.next()
+    }
+    fn size_hint(&self) -> (usize, Option<usize>) {
+        let n = self.inner.len();
+        match ITER_STYLE.load(std::sync::atomic::Ordering::Relaxed) {
+            1 => (0, None),
+            2 => (n.min(1), None),
+            3 => (0, Some(n + 5)),
+            _ => (n, Some(n)),
+        }
+    }
+}
+
 impl IntoGameNode for Tree {
     type PlayerInfo = u64;
     type Action = u64;
     type ChanceInfo = u64;
-    type Outcomes = Vec<(f64, Tree)>;
-    type Actions = Vec<(u64, Tree)>;
+    type Outcomes = Lazy<(f64, Tree)>;
+    type Actions = Lazy<(u64, Tree)>;
 
     fn into_game_node(self) -> GameNode<Self> {
         match self {
             Tree::Term(x) => GameNode::Terminal(x),
-            Tree::Chance(info, outs) => GameNode::Chance(info, outs),
+            Tree::Chance(info, outs) => GameNode::Chance(info, Lazy { inner: outs.into_iter() }),
             Tree::Player(one, info, acts) => GameNode::Player(
                 if one { PlayerNum::One } else { PlayerNum::Two },
                 info,
-                acts,
+                Lazy { inner: acts.into_iter() },
             ),
         }
     }
@@ -336,6 +361,7 @@ fn events_out(evs: Vec<verif::Event>) -> Value {
 }
 
 fn run_case(case: &Value) -> Value {
+    ITER_STYLE.store(case["iter_style"].as_u64().unwrap_or(0) as usize, std::sync::atomic::Ordering::Relaxed);
     let tree = parse_tree(&case["tree"]);
     let built = catch_unwind(AssertUnwindSafe(|| Game::from_root(tree.clone())));
     let game = match built {
@@ -367,6 +393,7 @@ fn run_ops<'g>(game: &'g Game<u64, u64>, other_game: Option<&'g Game<u64, u64>>,
         let name = op["op"].as_str().unwrap();
         let out = match name {
             "num_infosets" => json!(game.num_infosets()),
+            "noop" => json!({"skip": true}),
             "solve" => {
                 let method = match op["method"].as_str().unwrap() {
                     "full" => SolveMethod::Full,
